@@ -19,6 +19,8 @@ struct config_t
     int  spurious  = 0;       ///< budget of spurious condition-variable wake-ups
     long horizon   = 0;       ///< 0: branch at every decision; >0: no new branches after this many decisions
     long max_steps = 2000000; ///< scheduling steps after which an execution is declared a hang
+    int  count_all = 0;       ///< 1: every non-default choice (also a free switch after a thread blocked, the choice of
+                              ///< the waiter a signal wakes) costs one unit of `budget` — a deviation bound, used with a horizon
     int  prune     = 1;       ///< 0: none; 1: happens-before fingerprints (history based, sound under data-race
                               ///< freedom); 2: state fingerprints (pending operations + mutex owners + the digest of
                               ///< the shared data supplied by the harness; see set_digest)
